@@ -533,6 +533,29 @@ fn gen_ease(r: &mut Rng, n: usize, out: &mut dyn Write) {
         writeln!(out, "easeraw {} {}", c, b(x)).unwrap();
         writeln!(out, "# eq C13 1 2").unwrap();
     }
+    // a custom easing whose own output is not finite (a pole) is still "used as given": the value a two-keyframe timeline
+    // produces for its float property is `lerp(v0, v1, y)` with y the easing's output — NaN / ±inf included
+    for i in 0..(n / 20).max(20) {
+        let mut tl = gen_timeline(r, "S8", true, true);
+        tl.kfs.truncate(0);
+        let nanim = shape_fields("S8").iter().filter(|f| f.1).count();
+        let (v0, v1) = ((r.below(41) as f32 - 20.0) * 0.5, (r.below(41) as f32 - 20.0) * 0.5 + 0.25);
+        for (pos, v) in [(0.0f32, v0), (1.0, v1)] {
+            let mut vals: Vec<Option<String>> = vec![None; nanim];
+            vals[0] = Some(b(v));
+            tl.kfs.push(GenKf { pos, easing: None, vals });
+        }
+        tl.rep = Some("n".into()); tl.rev = Some(false); tl.delay = Some(0.0); tl.dur = Some(1.0); tl.easing = Some("c4".into());
+        writeln!(out, "reset").unwrap();
+        writeln!(out, "{}", shape_line("S8")).unwrap();
+        writeln!(out, "{}", tl.line(0)).unwrap();
+        let t = [0.5f32, 0.25, 0.75, f32::from_bits(0x3F00_0001), 0.125, f32::from_bits(0x3EFF_FFFF)][i % 6];
+        let y = 1.0f32 / (t - 0.5);
+        let target = vals_line(r, "S8", true);
+        writeln!(out, "upd 0 {} {}", b(t), target.join(" ")).unwrap();
+        writeln!(out, "lerp f32 {} {} {}", b(v0), b(v1), b(y)).unwrap();
+        writeln!(out, "# component C13 2 0").unwrap();
+    }
     // "a custom easing is used as given", inside timelines: the segment from a keyframe that names custom easing B is eased
     // with B whatever the timeline's default easing is — another custom easing A (twin 0), Linear (twin 1) — and it is the
     // same as making B the default and naming no easing on the keyframe (twin 2)
